@@ -90,6 +90,7 @@ class Inst:
     ni: int = 0
     nf: int = 0
     asan: bool = True
+    leak_check: bool = False   # native replay with LeakSanitizer (only harnesses that free everything they build)
 
 
 class Result:
@@ -285,7 +286,7 @@ def native_replay(prop, inst, vin, extra_defs=None):
         return None, "native build failed:\n" + log[-3000:]
     vt = os.path.join(inst_dir(prop, inst), "vin.txt")
     write_vin_txt(vt, vin)
-    env = dict(os.environ, ASAN_OPTIONS="detect_leaks=1:abort_on_error=0:exitcode=99",
+    env = dict(os.environ, ASAN_OPTIONS="detect_leaks=%d:abort_on_error=0:exitcode=99" % (1 if getattr(inst, "leak_check", False) else 0),
                UBSAN_OPTIONS="print_stacktrace=1:halt_on_error=1:exitcode=98")
     try:
         r = subprocess.run(["timeout", "-k", "2", "20", exe, vt], stdout=subprocess.PIPE,
